@@ -334,6 +334,107 @@ func tableSnapshot(e *Env) string {
 	return sb.String()
 }
 
+// c20TableHammer is phase 3: one discriminator table at a time, 16 goroutines look DIFFERENT registered keys of
+// that table up at the same moment, in a tight loop (the factory directly, and through the decoder of the owning
+// message on a tiny image), so that whatever a look-up path shares between calls - a "last hit" memo, a scratch
+// object, a lazily built index - is hit by several keys within nanoseconds.  Expected answers are computed
+// sequentially beforehand; inside the loop a goroutine touches only its own memory.
+func c20TableHammer(e *Env, mode string) {
+	r := e.R
+	iters := e.N(2500, 40000)
+	if mode == "race-workload-child" {
+		iters = e.N(400, 6000)
+	}
+	const G = 16
+	var tables, calls int64
+	for _, t := range e.Types() {
+		for fi := range t.Fields {
+			f := &t.Fields[fi]
+			if f.Kind != "union" {
+				continue
+			}
+			tb := e.S.Table(t.Pkg, f.Table)
+			factory := bind.Factories[tb.QName]
+			type kc struct {
+				key      any
+				img      []byte
+				want     any
+				wantType reflect.Type
+			}
+			var ks []kc
+			for _, en := range tb.Entries {
+				g := &gen.Gen{S: e.S, C: e.C, R: gen.NewRng(e.Seed, "C20-hammer", t.QName, fmt.Sprint(en.Key)), O: &gen.Opts{Lens: []int{1}, StrLens: []int{2}, NoNilBody: true, ForceKey: map[string]any{tb.QName: en.Key}}}
+				v := g.Value(t)
+				w, err, p := EncodeFresh(val.Clone(v))
+				if err != nil || p != nil {
+					continue
+				}
+				img := append([]byte(nil), w...)
+				d := e.C.New[t.QName]()
+				if err, p := LibDecode(d, bytes.NewBuffer(append([]byte(nil), img...))); err != nil || p != nil {
+					continue
+				}
+				m, ferr := factory(en.Key)
+				if ferr != nil || m == nil {
+					continue
+				}
+				ks = append(ks, kc{en.Key, img, d, reflect.TypeOf(m)})
+			}
+			if len(ks) < 2 {
+				continue
+			}
+			tables++
+			bad := make([]string, G)
+			var ready int32
+			var wg sync.WaitGroup
+			for gi := 0; gi < G; gi++ {
+				wg.Add(1)
+				go func(gi int) {
+					defer wg.Done()
+					atomic.AddInt32(&ready, 1)
+					for spins := 0; atomic.LoadInt32(&ready) < G; spins++ {
+						if spins > 1000 {
+							runtime.Gosched()
+						}
+					}
+					for i := 0; i < iters; i++ {
+						k := &ks[(gi*5+i)%len(ks)]
+						if i%2 == 0 {
+							m, err := factory(k.key)
+							if err != nil || reflect.TypeOf(m) != k.wantType {
+								bad[gi] = fmt.Sprintf("factory(%v) answered %T, %v; pinned %v", k.key, m, err, k.wantType)
+								return
+							}
+							continue
+						}
+						d := e.C.New[t.QName]()
+						in := bytes.NewBuffer(append(make([]byte, 0, len(k.img)), k.img...))
+						err, p := LibDecode(d, in)
+						if err != nil || p != nil || in.Len() != 0 {
+							bad[gi] = fmt.Sprintf("decode of key %v: err=%v panic=%v left=%d", k.key, err, p, in.Len())
+							return
+						}
+						if diff := val.Equal(k.want, d); diff != "" {
+							bad[gi] = fmt.Sprintf("decode of key %v: %s", k.key, diff)
+							return
+						}
+					}
+				}(gi)
+			}
+			wg.Wait()
+			calls += int64(G * iters)
+			for gi, b := range bad {
+				if b != "" {
+					r.Violate("C20/parallel-result-differs-from-sequential/table-lookups/"+tb.QName, "C20/parallel-result-differs-from-sequential", map[string]any{"table": tb.QName, "owner": t.QName, "goroutine": gi, "detail": b, "build": mode, "phase": "16 goroutines looking up different registered keys of one table at once"})
+					break
+				}
+			}
+		}
+	}
+	r.Evals(calls)
+	r.Set("phase3_table_hammer", map[string]any{"tables": tables, "goroutines": G, "lookups_and_decodes_each": iters})
+}
+
 func c20Child(e *Env, mode string) {
 	r := e.R
 	switch mode {
@@ -432,6 +533,7 @@ func c20Child(e *Env, mode string) {
 				}
 			}
 		}
+		c20TableHammer(e, mode)
 		after := tableSnapshot(e)
 		st := concurrencyStats(cs, evs)
 		r.Evals(int64(st["library_calls"].(int)))
@@ -495,7 +597,7 @@ func c20(e *Env) {
 		c20Child(e, e.Args[0])
 		return
 	}
-	r.Rule("expected bytes/messages for 3 canonical values of each of the 170 types are computed first, sequentially; then 64 goroutines (busy-wait barrier, no channel or shared atomic inside the measured region) each perform 1000 (thorough 10000) encode+decode operations on randomly chosen cases, on private clones, private send buffers that still hold the frames queued before, and private receivers — frames and extended messages included, so the checksum registry and all 18 discriminator maps are read concurrently — plus, every fourth operation, a direct Calc of all four registered checksum services on a private buffer, and every sixteenth an encode that must fail (a body that refuses, an unregistered key with absent body, an over-long list) into a discarded buffer; a third workload child runs with the checksum registry emptied first; then 200 goroutines under GOMAXPROCS=256 decoding messages with 20 000-element object lists (far more than 64 calls inside a list reader at once); the same workload with 250/2500 operations per goroutine in a -race build; first-use trials: 4 (thorough 32) fresh processes (alternating plain / -race builds) in which the very first touch of every table and checksum service happens concurrently from 16 goroutines, judged against the reference codec. distinct_nontrivial = distinct (type,type) pairs whose calls were observed overlapping in real time, summed over the runs")
+	r.Rule("expected bytes/messages for 3 canonical values of each of the 170 types are computed first, sequentially; then 64 goroutines (busy-wait barrier, no channel or shared atomic inside the measured region) each perform 1000 (thorough 10000) encode+decode operations on randomly chosen cases, on private clones, private send buffers that still hold the frames queued before, and private receivers — frames and extended messages included, so the checksum registry and all 18 discriminator maps are read concurrently — plus, every fourth operation, a direct Calc of all four registered checksum services on a private buffer, and every sixteenth an encode that must fail (a body that refuses, an unregistered key with absent body, an over-long list) into a discarded buffer; a third workload child runs with the checksum registry emptied first; then 200 goroutines under GOMAXPROCS=256 decoding messages with 20 000-element object lists (far more than 64 calls inside a list reader at once); then, one discriminator table at a time, 16 goroutines looking different registered keys of that table up at the same moment in a tight loop (factory and owning decoder); the same workload with 250/2500 operations per goroutine in a -race build; first-use trials: 4 (thorough 32) fresh processes (alternating plain / -race builds) in which the very first touch of every table and checksum service happens concurrently from 16 goroutines, judged against the reference codec. distinct_nontrivial = distinct (type,type) pairs whose calls were observed overlapping in real time, summed over the runs")
 	r.Explain("Oracle: every parallel result equals the sequential one (bytes byte-for-byte, messages ≡); zero race-detector reports (counted from the log) and no runtime 'concurrent map' abort; the registered key→type answers of all 18 factories are identical before and after. Evidence numbers (overlapping call pairs, concurrency histogram, distinct overlapping type pairs) are computed offline from per-goroutine logs.")
 	r.Assume("the exported Registry…Factory mutators are not called concurrently: the property says tables are only read after start-up", "the race detector judges only the accesses the workload performed")
 	type run struct{ bin, mode, label string }
